@@ -99,6 +99,18 @@ impl LockFile {
 		Ok(())
 	}
 
+	/// Whether this instance holds the lock (it does from `acquire` to `release`)
+	#[cfg(not(target_arch = "wasm32"))]
+	pub fn is_held(&self) -> bool {
+		self.file.is_some()
+	}
+
+	/// Whether this instance holds the lock (WASM: there is no lock to lose)
+	#[cfg(target_arch = "wasm32")]
+	pub fn is_held(&self) -> bool {
+		true
+	}
+
 	/// Releases the lock
 	#[cfg(not(target_arch = "wasm32"))]
 	pub fn release(&mut self) -> Result<()> {
